@@ -44,5 +44,8 @@ for p in props:
     if r.returncode == 2:
         print(r.stdout[-1500:])
 json.dump(res, open('/verif/seeded/%s/trial-%s.json' % (sid, '-'.join(props)), 'w'), indent=1)
-sh('git -C /repo worktree remove --force %s' % repo)
-shutil.rmtree(base, ignore_errors=True)
+if '--keep' not in sys.argv:
+    sh('git -C /repo worktree remove --force %s' % repo)
+    shutil.rmtree(base, ignore_errors=True)
+else:
+    print('kept', base)
